@@ -659,6 +659,8 @@ def dict_find(it, d: VDict, q: V):
 
 
 def contains(it, container: V, item: V):
+    if isinstance(container, VLib) and container.kind == "dict_keys":
+        container = container.f["dict"]
     if isinstance(container, VDict):
         dk = dict_key(item)
         if dk is None and not isinstance(item, VNone):
@@ -916,6 +918,35 @@ def _slice_concat(it, obj: VBytes, lo, hi):
     return VBytes(z3.simplify(_cat_terms(parts[j0:j1])))
 
 
+def _slice_at_occurrence(it, obj: VBytes, lo, hi):
+    """x[r+o : r+o+k] where r was returned by x.find(p1 ++ .. ++ pn) with a proved occurrence (r >= 0) and the bounds coincide with a
+    part of the pattern: the slice IS that part.  The equality is proved from the facts recorded by the find stub alone (a small
+    query); without a proof the general rule applies."""
+    facts = getattr(it, "find_facts", None)
+    if not facts or not isinstance(lo, VInt) or not isinstance(hi, VInt) or lo.conc is not None:
+        return None
+    from . import smt
+    for hay, r, parts, local in facts:
+        if not z3.eq(hay, obj.e):
+            continue
+        d = z3.simplify(lo.e - r)
+        k = z3.simplify(hi.e - lo.e)
+        if not (z3.is_int_value(d) and z3.is_int_value(k)):
+            continue
+        for off, pt in parts:
+            if z3.is_app(pt) and pt.decl().kind() in (z3.Z3_OP_SEQ_UNIT, z3.Z3_OP_SEQ_CONCAT):
+                continue  # constant parts: the general rule does
+            if z3.is_false(z3.simplify(off == d)):
+                continue
+            kl = it.known_lens.get(pt.sexpr())
+            if kl is not None and kl != k.as_long():
+                continue
+            goal = z3.And(off == d, z3.Length(pt) == k, lo.e >= 0, hi.e <= z3.Length(obj.e), z3.Extract(obj.e, lo.e, k) == pt)
+            if smt.prove(list(it.facts) + list(it.pc), goal, timeout_ms=5000, want_model=False)["status"] == "unsat":
+                return VBytes(pt)
+    return None
+
+
 def getslice(it, obj, lo, hi, step):
     if step is not None and not (isinstance(step, VInt) and step.conc == 1) and not isinstance(step, VNone):
         raise OutOfSubset("slice with a step")
@@ -930,6 +961,9 @@ def getslice(it, obj, lo, hi, step):
         n = bytes_len(obj)
         if obj.conc is None:
             r = _slice_concat(it, obj, lo, hi)
+            if r is not None:
+                return r
+            r = _slice_at_occurrence(it, obj, lo, hi)
             if r is not None:
                 return r
         a, b = _clamp_slice(it, lo, hi, n)
